@@ -1226,11 +1226,10 @@ fn parse_opt_line(line: &str) -> Option<(Spec, bool, usize)> {
 /// `C08_fast_path_counterexample_*` in Props/C08.lean)
 /// `m.new(x.eq(float(c)))` with `c` outside the declared bounds of the float variable `x`: the
 /// immediate materialisation overwrites the interval with `[c, c]` instead of failing
-fn eq_overwrites_domain(spec: &Spec) -> bool {
-    spec.posts.iter().any(|p| match p {
-        SPost::EqImm(x, c) => match spec.vars[*x] { SVar::F(lo, hi) => !(*c >= lo && *c <= hi), SVar::I(..) => false },
-        _ => false,
-    })
+fn eq_overwrites_domain(_spec: &Spec) -> bool {
+    // repaired by c10c516 (`fix: x.eq(c) on a float variable narrows the domain only to a value
+    // inside it`): the matcher is switched off, a recurrence is an unlisted failure
+    false
 }
 
 fn fast_class(spec: &Spec, is_max: bool, obj: usize, fails: &[Fail]) -> &'static str {
@@ -1256,7 +1255,8 @@ fn fast_class(spec: &Spec, is_max: bool, obj: usize, fails: &[Fail]) -> &'static
                 SPost::PLin(..) => "fast-path-ignores-props-linear-rows",
                 SPost::Cmp(..) if extractable(p) => "fast-path-ignores-opposite-bounds",
                 SPost::Cmp(..) => "fast-path-unextracted-bound-shape",
-                SPost::EqImm(..) => "-",
+                // the posted `equals(x, const)` is a shape the router's bound extraction ignores
+                SPost::EqImm(..) => "fast-path-unextracted-bound-shape",
             }
         }
     };
